@@ -169,7 +169,7 @@ def judge(ctx, stream, cfg, case, res):
             elif x in group:
                 # shallow copies of the receiver: values may or may not follow (Array.copy docstring); labels, legs,
                 # total charge are per-object and the tensor must stay consistent
-                bad = [w for w in what if w not in ('val', 'dtype')]
+                bad = [w for w in what if w not in ('val', 'dtype', 'sane')]
                 if bad:
                     ctx.fail('oracle', '[%s] step %d: in-place %s on r%d changed %s of its shallow copy r%d' % (cfg, si, op, recv, bad, x),
                              ctxinfo, match_key='C03:%s:shallow-copy-%s-changed' % (op, ','.join(sorted(bad))))
@@ -179,8 +179,9 @@ def judge(ctx, stream, cfg, case, res):
         # rule 2: nobody (except possibly the receiver of a failed call) is left inconsistent
         for x in rec.get('insane', []):
             if x != recv:
-                ctx.fail('oracle', '[%s] step %d: %s leaves live tensor r%d inconsistent (test_sanity fails / blocks do not fit the legs)' % (cfg, si, op, x),
-                         ctxinfo, match_key='C03:%s:bystander-corrupted' % op)
+                rel = 'shallow-copy' if x in group else 'bystander'
+                ctx.fail('oracle', '[%s] step %d: %s leaves live tensor r%d (%s of the receiver) inconsistent: test_sanity fails / blocks do not fit '
+                         'the block indices' % (cfg, si, op, x, rel), ctxinfo, match_key='C03:%s:%s-corrupted' % (op, rel))
         # rule 3: LegCharge objects are never mutated
         if rec.get('legs_changed'):
             ctx.fail('oracle', '[%s] step %d: %s mutated a LegCharge object that is shared: %s' % (cfg, si, op, rec['legs_changed'][:2]),
@@ -190,7 +191,7 @@ def judge(ctx, stream, cfg, case, res):
             ctx.fail('oracle', '[%s] step %d: %s changed its argument `%s` (a numpy array of the caller)' % (cfg, si, op, name),
                      ctxinfo, match_key='C03:%s:argument-%s-mutated:%s' % (op, name, cfg))
         # bookkeeping of shallow copies
-        if op == 'copy_shallow' and not failed:
+        if op in ('copy_shallow', 'gauge_total_charge', 'sort_legcharge') and not failed:      # documented to return a shallow copy
             g = alias.setdefault(st['a'], {st['a']})
             g.add(si)
             alias[si] = g
@@ -206,7 +207,7 @@ def judge(ctx, stream, cfg, case, res):
                 spec = st.get('spec') or st
                 nb = len(spec['blocks']) if 'blocks' in spec else 1
                 k = '(HNew %d%%nat %s)' % (min(nb, 30), '[' + '; '.join('%d%%nat' % t[1] for t in spec['legs']) + ']')
-            elif op in ('copy_shallow', 'copy_deep'):
+            elif op in ('copy_shallow', 'copy_deep', 'gauge_total_charge', 'sort_legcharge'):
                 k = '(HCopy %s)' % ('true' if op == 'copy_deep' else 'false')
             elif op in ('iscale', 'iscale_prefactor'):
                 k = 'HMapWrite' if cfg == 'cy' else 'HRebind'
@@ -214,8 +215,10 @@ def judge(ctx, stream, cfg, case, res):
                 k = 'HBinWrite' if cfg == 'cy' else 'HRebind'
             elif op == 'setitem':
                 k = 'HMapWrite'
+            elif op == 'iscale_axis':
+                k = 'HRebind'           # t * s: fresh arrays
             elif op in INPLACE_REBIND:
-                k = 'HRebind'
+                k = 'HMeta'             # np.transpose views / conj of real data / list rebinding: the block memory may stay shared
             elif op == 'iproject':
                 k = 'HProject'
             elif op == 'scale_axis':
@@ -226,7 +229,7 @@ def judge(ctx, stream, cfg, case, res):
                 k = 'HTensordot'
             else:
                 k = 'HUnary'
-            msteps.append('(%s, %d%%nat, %d%%nat, %s)' % (k, ra, rb, '[' + '; '.join('%d%%nat' % x for x in sorted(changed)) + ']'))
+            msteps.append('(%s, %d%%nat, %d%%nat, %s)' % (k, ra, rb, '[' + '; '.join('%d%%nat' % x for x in sorted(x for x, w in changed.items() if set(w) - {'sane'})) + ']'))   # consistency is judged by rule 2
     return msteps
 
 
@@ -234,11 +237,17 @@ def main(ctx):
     rng = ctx.rng
     ctx.proof = common.check_proofs('C03')
     mult = 3 if not ctx.proof.ok else 1
-    nh = ctx.pick(260, 2500) * mult
+    nh = ctx.pick(600, 5000) * mult
     cases = [c['case'] for c in common.corpus_cases('C03') if c.get('stream') == 'history']
+    replay_doc = None
+    if ctx.replay_in:
+        import json
+        replay_doc = (json.load(open(ctx.replay_in)).get('input') or {})
+        nh = 0
+        cases = [replay_doc['case']] if replay_doc.get('stream') == 'history' else []
     cases += [gen_history(rng) for _ in range(nh)]
-    mps_cases = []
-    for i in range(ctx.pick(6, 40)):
+    mps_cases = [replay_doc['case']] if replay_doc and replay_doc.get('stream') == 'mps' else []
+    for i in range(ctx.pick(10, 60) if replay_doc is None else 0):
         mps_cases.append({'seed': ctx.seed * 1000 + i, 'model': rng.choice(['xxz', 'tfi']), 'L': rng.choice([4, 5, 6]),
                           'bc': rng.choice(['finite', 'finite', 'infinite']), 'conserve': None, 'form_A': rng.random() < 0.3,
                           'combine': rng.random() < 0.5})
@@ -249,7 +258,7 @@ def main(ctx):
     items = [('mps', c) for c in mps_cases] + [('history', c) for c in cases]
     from concurrent.futures import ThreadPoolExecutor
     common.cy_build()
-    n = ctx.pick(4, 8)
+    n = ctx.pick(4, 8) if len(items) > 8 else 1
     chunks = [items[i::n] for i in range(n)]
     jobs = [(cfg, i) for i in range(n) for cfg in ('py', 'cy')]
     with ThreadPoolExecutor(max_workers=len(jobs)) as ex:
